@@ -21,7 +21,8 @@ THEOREMS = ['Vakt.C09.decode_no_uid_refused', 'Vakt.C09.decode_type_ignored', 'V
             'Vakt.C09.decode_unknown_field_refused', 'Vakt.C09.value_roundtrip', 'Vakt.C09.policy_roundtrip_partial',
             'Vakt.C09.rule_classes_distinct', 'Vakt.C09.rule_roundtrip', 'Vakt.C09.rule_meaning_preserved',
             'Vakt.C09.elem_roundtrip', 'Vakt.C09.policy_roundtrip', 'Vakt.C09.policy_meaning_preserved',
-            'Vakt.C09.stored_type_irrelevant']
+            'Vakt.C09.stored_type_irrelevant',
+            'Vakt.C09.codec_probes_ok']
 EXTRA_IMPORTS = ['Props.C09Codec']
 FLOOR = {'quick': 300, 'thorough': 5000}
 ASSUMPTIONS = ['the codec theorems (rule_roundtrip, policy_roundtrip) are about the JSON text jsonpickle writes, as modelled in '
